@@ -391,40 +391,105 @@ def _interval(ctx: Ctx, c: Collector) -> None:
     srcp, destp = T.var(gfi.params[0]), T.var(gfi.params[1])
     pr = []
     rts = gs.returns
-    # the source's ancestor chain: [src, src.parent, src.parent.parent, ...]; as an append-accumulator
-    # it is normalised to a bag, otherwise it is an opaque local
-    idx_calls = [e for e in gs.of_kind("call") if e.term[1][0] == "attr" and e.term[1][2] == "index" and e.term[2] == (destp,)]
+
+    def chain_root(t: Term) -> Optional[Term]:
+        """g if `t` denotes the parent chain [g, g.parent, g.parent.parent, ...]: an append-accumulator
+        that starts with g and is extended by every parent, or (a list of) the values of a generator
+        that yields its argument and then climbs `.parent` while there is one."""
+        t = T.strip(t)
+        while t[0] == "call" and t[1] in (T.glob("list"), T.glob("tuple")) and len(t[2]) == 1:
+            t = T.strip(t[2][0])
+        if t[0] == "bag":
+            els = t[1]
+            if len(els) == 2 and not els[0][3] and els[1][1][0] == "attr" and els[1][1][2] == "parent":
+                root = els[0][1]
+                walkers = {root} | {e.term[1] for e in gs.of_kind("bind") if e.term[2] == root and not e.iters}
+                if els[1][1][1] in walkers and any(i[1] == ("while",) and T.strip(i[2]) == ("attr", els[1][1][1], "parent") for i in els[1][3]):
+                    return root
+            return None
+        return None
+
+    def generator_chain(t: Term) -> Optional[Term]:
+        t = T.strip(t)
+        while t[0] == "call" and t[1] in (T.glob("list"), T.glob("tuple")) and len(t[2]) == 1:
+            t = T.strip(t[2][0])
+        if t[0] != "call":
+            return None
+        gen = root = None
+        if t[1][0] == "attr" and not t[2]:
+            gen, root = ctx.prog.find_method("mosaik.scenario.SimGroup", t[1][2]), t[1][1]
+        elif t[1][0] == "glob" and len(t[2]) == 1:
+            gen, root = ctx.prog.functions.get(t[1][1]), t[2][0]
+        if gen is None or not gen.params:
+            return None
+        ys = ctx.raw(gen.qualname)
+        p0 = T.var(gen.params[0])
+        yields = ys.of_kind("yield")
+        if len(yields) != 2 or ys.returns and any(r.term != T.NONE for r in ys.returns):
+            return None
+        first, nxt = yields
+        walker = [b.term[1] for b in ys.of_kind("bind") if b.term[2] == p0 and not b.iters]
+        w = walker[0] if walker else p0
+        ok = first.term == p0 and not first.iters and not first.guards \
+            and nxt.term == ("attr", w, "parent") and any(i[1] == ("while",) and T.strip(i[2]) == ("attr", w, "parent") for i in nxt.iters) \
+            and any(b.term == ("bind", w, ("attr", w, "parent")) and b.iters == nxt.iters and b.idx < nxt.idx for b in ys.of_kind("bind"))
+        return root if ok else None
+
+    def parent_chain(t: Term) -> Optional[Term]:
+        r = chain_root(t)
+        return r if r is not None else generator_chain(t)
+
+    idx_calls = [e for e in gs.of_kind("call") if e.term[1][0] == "attr" and e.term[1][2] == "index" and len(e.term[2]) == 1]
     if not idx_calls:
         pr.append("the common group is not looked up in the source's ancestor chain")
     else:
         look = idx_calls[0]
         chain = look.term[1][1]
-        if chain[0] == "bag":
-            els = chain[1]
-            walkers = {srcp} | {e.term[1] for e in gs.of_kind("bind") if e.term[2] == srcp and not e.iters}
-            ok_chain = len(els) == 2 and els[0][1] == srcp and not els[0][3] and els[1][1][0] == "attr" and els[1][1][2] == "parent" and els[1][1][1] in walkers \
-                and any(i[1] == ("while",) and T.strip(i[2]) == ("attr", els[1][1][1], "parent") for i in els[1][3])
-            if not ok_chain:
-                pr.append("the source's ancestor chain is not [src] extended by every parent")
+        cand = look.term[2][0]
+        if cand == destp:
+            # form A: the destination variable climbs to its parent until the lookup succeeds
+            if chain[0] == "bag" or chain[0] == "call":
+                if parent_chain(chain) != srcp:
+                    pr.append("the source's ancestor chain is not [src] extended by every parent")
+            else:
+                init = [e for e in gs.of_kind("bind") if e.term[1] == chain]
+                if init and parent_chain(init[0].term[2]) == srcp:
+                    pass
+                else:
+                    if not init or not (init[0].term[2][0] == "bag" and len(init[0].term[2][1]) == 1 and init[0].term[2][1][0][1] == srcp):
+                        pr.append("the source's ancestor chain does not start with the source group itself")
+                    apps = [e for e in gs.of_kind("call") if e.term[1] == ("attr", chain, "append")]
+                    if not apps or not any(i[1] == ("while",) for i in apps[0].iters):
+                        pr.append("the source's ancestor chain is not extended by every parent")
+            okret = any(r.term[0] == "tuple" and len(r.term[1]) == 3 and r.term[1][0] == look.term and r.term[1][2] == destp for r in rts)
+            if not okret:
+                pr.append("does not return (index of the common group in the source chain, descent, common group)")
+            climbs = [e for e in gs.of_kind("bind") if e.term[1] == destp and e.term[2] == ("attr", destp, "parent")]
+            if not climbs:
+                pr.append("the destination side never climbs to its parent")
+            else:
+                if ("attr", destp, "parent") not in guard_terms(climbs[0].guards):
+                    pr.append("the destination climbs to its parent although it has none / stops although it has one (guard of the climb is not `dest.parent`)")
+                if not any(i[1] == ("while",) and T.strip(i[2]) == T.const(True) for i in climbs[0].iters):
+                    pr.append("the search for the common group is not repeated until it is found")
         else:
-            init = [e for e in gs.of_kind("bind") if e.term[1] == chain]
-            if not init or not (init[0].term[2][0] == "bag" and len(init[0].term[2][1]) == 1 and init[0].term[2][1][0][1] == srcp):
-                pr.append("the source's ancestor chain does not start with the source group itself")
-            apps = [e for e in gs.of_kind("call") if e.term[1] == ("attr", chain, "append")]
-            if not apps or not any(i[1] == ("while",) for i in apps[0].iters):
-                pr.append("the source's ancestor chain is not extended by every parent")
-        rts = gs.returns
-        okret = any(r.term[0] == "tuple" and len(r.term[1]) == 3 and r.term[1][0] == look.term and r.term[1][2] == destp for r in rts)
-        if not okret:
-            pr.append("does not return (index of the common group in the source chain, descent, common group)")
-        climbs = [e for e in gs.of_kind("bind") if e.term[1] == destp and e.term[2] == ("attr", destp, "parent")]
-        if not climbs:
-            pr.append("the destination side never climbs to its parent")
-        else:
-            if ("attr", destp, "parent") not in guard_terms(climbs[0].guards):
-                pr.append("the destination climbs to its parent although it has none / stops although it has one (guard of the climb is not `dest.parent`)")
-            if not any(i[1] == ("while",) and T.strip(i[2]) == T.const(True) for i in climbs[0].iters):
-                pr.append("the search for the common group is not repeated until it is found")
+            # form B: the candidates are iterated over the destination's parent chain
+            if parent_chain(chain) != srcp:
+                init = [e for e in gs.of_kind("bind") if e.term[1] == chain]
+                if not init or parent_chain(init[0].term[2]) != srcp:
+                    pr.append("the source's ancestor chain is not [src] extended by every parent")
+            it = look.iters[-1] if look.iters else None
+            src_it = T.strip(it[2]) if it is not None else None
+            counter = None
+            if src_it is not None and src_it[0] == "call" and src_it[1] == T.glob("enumerate") and len(src_it[2]) == 1 and it[1][0] == "tuple" and len(it[1][1]) == 2:
+                counter, loopvar, src_it = it[1][1][0], it[1][1][1], T.strip(src_it[2][0])
+            else:
+                loopvar = it[1] if it is not None else None
+            if it is None or loopvar != cand or parent_chain(src_it) != destp:
+                pr.append("the candidates for the common group are not the destination group and its parents, innermost first")
+            okret = any(r.term[0] == "tuple" and len(r.term[1]) == 3 and r.term[1][0] == look.term and r.term[1][2] == cand and (counter is None or r.term[1][1] == counter) for r in rts)
+            if not okret:
+                pr.append("does not return (index of the common group in the source chain, descent, common group)")
         if not any(r == "body" for _, r in look.tries):
             pr.append("a destination group that is not an ancestor of the source ends the search (ValueError not handled)")
     c.add("group_path", GROUP_PATH, "ascent = index of first common ancestor", VIOLATED if pr else DISCHARGED, "; ".join(pr), gfi.loc)
